@@ -19,6 +19,8 @@ pub fn opts() -> GenOpts {
     o.custom_help = true;
     o.pos_and_cmd = true;
     o.cmd_or_words = true;
+    o.twins = true;
+    o.usage_fallback = true;
     o.catch = true;
     o.adjacent_cmds = true;
     o
